@@ -55,12 +55,16 @@ inline size_t payloadLengthOf(const PacketRecipe& r)
     return oracleBytes(r, f).size();
 }
 
-inline rc::Gen<uint32_t> genMaxBytes()
+// C07's domain ends at 65535 + 24; the other encoder properties only say "maximum >= 25", and the code copes with larger
+// maxima (a chunk never exceeds the 65535-byte payload), so those generators also go beyond 65559
+inline rc::Gen<uint32_t> genMaxBytes(bool beyond16Bit = false)
 {
     return rc::gen::weightedOneOf<uint32_t>(
         {{4, rc::gen::element<uint32_t>(25, 26, 27, 28, 40, 41, 64, 100, 127, 128, 255, 256, 1000, 1500, 9000, 65535, 65559)},
          {6, range<uint32_t>(25, 300)},
-         {1, range<uint32_t>(25, 65559)}});
+         {1, range<uint32_t>(25, 65559)},
+         {beyond16Bit ? 1u : 0u, rc::gen::weightedOneOf<uint32_t>({{2, rc::gen::element<uint32_t>(65560, 65561, 65575, 65576, 70000, 131072, 131096, 200000)},
+                                                                    {1, range<uint32_t>(65560, 300000)}})}});
 }
 
 inline rc::Gen<uint32_t> genMinBytes(uint32_t maxB)
@@ -90,6 +94,7 @@ struct EncGenParams
     bool allowEmpty{false};
     size_t boundaryWeight{3};  // weight of configuration-derived lengths (others: 4 small, 2 uniform, 1 huge)
     size_t frameBudget{70000};
+    bool beyond16Bit{false};   // maxima above 65559 (not for C07, whose domain ends there)
 };
 
 inline rc::Gen<EncCase> genEncCase(const EncGenParams& params)
@@ -99,7 +104,7 @@ inline rc::Gen<EncCase> genEncCase(const EncGenParams& params)
         c.dev = *anyInt<uint16_t>();
         c.stream = *anyInt<uint8_t>();
         c.version = *range<uint8_t>(1, 255);
-        c.maxB = *genMaxBytes();
+        c.maxB = *genMaxBytes(params.beyond16Bit);
         c.minB = std::min(*genMinBytes(c.maxB), c.maxB);
         const long cap = static_cast<long>(c.maxB) - 8;
         const long lfit = cap - 16;
